@@ -378,6 +378,11 @@ class ApplyLayoutCastMemrefGlobal(RewritePattern):
         global_op = SymbolTable.lookup_symbol(op, const_source.name_)
         if not isinstance(global_op, memref.GlobalOp):
             return
+        # the initial value is only stored row-major as long as the global has no layout
+        if not isa(global_type := global_op.type, builtin.MemRefType[Attribute]):
+            return
+        if not isinstance(global_type.layout, builtin.NoneAttr):
+            return
 
         # apply transformation
         if isa(
